@@ -17,7 +17,12 @@ func mutateWire(r *SplitMix, a, b []byte) ([]byte, string) {
 		}
 		return m, "bitflip"
 	}
-	switch r.Intn(16) {
+	switch r.Intn(17) {
+	case 16: // same header fields, different header bytes
+		if m, ok := respellHeader(r, a); ok {
+			return m, "hdr-respell"
+		}
+		fallthrough
 	case 0: // bit flip anywhere
 		m := cloneBytes(a)
 		m[r.Intn(len(m))] ^= 1 << uint(r.Intn(8))
@@ -259,4 +264,50 @@ func boundaryShift(objs [][]byte, k, how int, cut bool) []byte {
 		o = append(o, objs[k+1:]...)
 	}
 	return joinObjects(o)
+}
+
+// respellHeader re-encodes the header of a wire message so that every field keeps its
+// value but the header BYTES differ (non-minimal encodings, an extra trailing element,
+// junk after the list inside the header bin).  The header hash — and with it every
+// signature, MAC key and nonce — is defined over the bytes, so the result must be rejected.
+func respellHeader(r *SplitMix, a []byte) ([]byte, bool) {
+	objs, ok := splitObjects(a)
+	if !ok || len(objs) < 2 {
+		return nil, false
+	}
+	hn, _, err := mpParse(objs[0])
+	if err != nil || (hn.Kind != mpBin && hn.Kind != mpStr) {
+		return nil, false
+	}
+	inner, _, err := mpParse(hn.Bytes)
+	if err != nil || inner.Kind != mpArr || len(inner.Arr) < 4 {
+		return nil, false
+	}
+	var hb []byte
+	switch r.Intn(5) {
+	case 0: // format name as str8
+		inner.Arr[0].Width = 1
+		hb = mpEnc(inner)
+	case 1: // an extra trailing element
+		inner.Arr = append(inner.Arr, nNil())
+		hb = mpEnc(inner)
+	case 2: // junk after the list, inside the header bin
+		hb = append(mpEnc(inner), 0xc0)
+	case 3: // a key/nonce field as bin16
+		for _, c := range inner.Arr[3:] {
+			if c.Kind == mpBin {
+				c.Width = 2
+				break
+			}
+		}
+		hb = mpEnc(inner)
+	default: // the list header as array16
+		inner.Width = 2
+		hb = mpEnc(inner)
+	}
+	if string(hb) == string(hn.Bytes) {
+		return nil, false
+	}
+	o := append([][]byte{mpEnc(nBin(hb))}, objs[1:]...)
+	return joinObjects(o), true
 }
